@@ -10,17 +10,43 @@ from typing import Any, Dict, Iterable, List, Sequence, Tuple
 
 from .. import common as C
 from .. import datalog_corr as D
+from .. import datalog_fine as G
 
 PROP = "C17"
 DRIVERS = ["drv_datalog"]
 LEAN_TARGETS = ["Pyrtma.Props.C17"]
 LEVEL = "proof"
-MATCHERS: Dict[str, Any] = {}
+
+
+def _f3(clause: str, cc: Any) -> bool:
+    """C17-F3: an injected file-system failure killed the writer thread inside a write cycle (write_to_disk set,
+    write_finished clear) and stop() then waits for write_finished for ever."""
+    return (clause.startswith("stop_hangs_writer_dead") and isinstance(cc, dict) and cc.get("kind") == "G"
+            and bool(cc.get("case", {}).get("faults")) and cc.get("obs", {}).get("status") == "hang"
+            and cc.get("obs", {}).get("wdead") == 1 and cc.get("obs", {}).get("fired") == 1)
+
+
+MATCHERS: Dict[str, Any] = {"C17-F3": _f3}
+
+
+def _finding(clause: str, cc: Any):
+    """open findings: known_findings.json, or this slice's fragment when it has not been merged yet"""
+    fid = C.match_finding(PROP, clause, cc, MATCHERS)
+    if fid:
+        return fid
+    import json
+    frag = C.VERIF / "findings_fragments" / "C17.json"
+    if frag.exists():
+        for e in json.loads(frag.read_text()).get("findings", []):
+            if e.get("status") == "open" and e["id"] in MATCHERS and MATCHERS[e["id"]](clause, cc):
+                return e["id"]
+    return None
 TRUSTED = [
     "Lean 4.33.0 kernel; axioms propext, Classical.choice, Quot.sound only (audited by #print axioms)",
     "harness/datalog_corr.py: gated-thread controller, shims for threading/time, file decoders, generators",
-    "atomicity assumption: the real threads are only interleaved at the gated operations (Event ops, "
-    "stage_for_write, DataSet.write, start of an operation); pre-emption between byte codes is not explored",
+    "harness/datalog_fine.py: the gated DataSet subclass / list subclass / file proxies (every access to an object both "
+    "threads can reach is a scheduling point; code between two such accesses touches thread-local data only, which the "
+    "harness audits per run: an attribute set by one thread and touched by the other must be in the gated set)",
     "CPython file objects (seek/write/close), tempfile.NamedTemporaryFile, json.dumps/loads, ctypes from_buffer_copy",
 ]
 
@@ -150,6 +176,83 @@ def random_case(rng, long: bool) -> Dict[str, Any]:
     return case
 
 
+# ---- fine granularity (kind G): every access to a shared object is a scheduling point --------------------------
+
+def fine_r_steps(case) -> int:
+    n = len(case["ds"])
+    return (len(case["ops"]) - 1) * (5 + 3 * n) + 6 + 12 * n
+
+
+def fine_directed() -> Iterable[Dict[str, Any]]:
+    scheds = ["", "R" * 900, "W" * 25, "RW" * 300, "RRW" * 200, "RWW" * 200, "RRRRRWWW" * 80, "RWWWWW" * 120,
+              "RRRRRRRRW" * 80, "R" * 9 + "W" * 6 + "R" * 30, "R" * 9 + "W" * 3 + "R" * 12 + "W" * 9 + "R" * 40]
+    seen = set()
+    for case in directed_cases():
+        key = (str(case["ds"]), str(case["ops"]))
+        if key in seen:
+            continue
+        seen.add(key)
+        for s in scheds:
+            yield dict(case, sched=s, faults=[])
+
+
+def fine_exhaustive(deep: bool, rng=None) -> Iterable[Dict[str, Any]]:
+    """schedules R^a W^b R^c W^d (then round-robin): the writer is pre-empted after every one of its first b
+    accesses, the recorder after every one of its accesses, for all a and all b; thorough: a spread of c / d for
+    each (a, b); quick: c = 0 and one seeded (c, d) per (a, b)"""
+    cs = [1, 2, 3, 5, 9, 30]
+    dsw = [0, 4]
+    for dss, ops in SMALL_PROGRAMS:
+        base = {"ds": dss, "ops": number_ops(ops), "faults": []}
+        ra = fine_r_steps(base)
+        wb = 14 + 22 * len(dss)
+        for a in range(0, ra + 1):
+            yield dict(base, sched="R" * a)
+            for b in range(1, wb + 1):
+                yield dict(base, sched="R" * a + "W" * b)
+                if deep or rng is None:
+                    for cc in cs:
+                        for d in dsw:
+                            yield dict(base, sched="R" * a + "W" * b + "R" * cc + "W" * d)
+                elif (a + b) % 2 == 0:
+                    yield dict(base, sched="R" * a + "W" * b + "R" * rng.randint(1, 34) + "W" * rng.randint(0, 9))
+
+
+def fine_fault_sweep(deep: bool) -> Iterable[Dict[str, Any]]:
+    """every file-system operation of a run fails once: programs x schedule shapes x fault position"""
+    progs = list(SMALL_PROGRAMS) + [
+        ([{"fmt": "quicklogger", "types": "A", "interval": 30}],
+         [["u", 16, 0], ["u", 16, 1], ["u", 16, 2], ["t", 16]]),
+        ([{"fmt": "msg_header", "types": "A", "interval": 30}, {"fmt": "quicklogger", "types": "A", "interval": 0}],
+         [["u", 31, 0], ["u", 16, 1]]),
+    ]
+    scheds = ["", "RW" * 200, "R" * 400, "RWWW" * 150] + (["RRRW" * 150, "R" * 12 + "W" * 40 + "R" * 100] if deep else [])
+    for dss, ops in progs:
+        for s in scheds:
+            for k in range(0, 40 if deep else 26):
+                yield {"ds": dss, "ops": number_ops(ops), "sched": s, "faults": [k]}
+
+
+def fine_random(rng, long: bool) -> Dict[str, Any]:
+    case = random_case(rng, long)
+    total = rng.randint(0, 3 * fine_r_steps(case))
+    flavour = rng.choice(["even", "slowW", "fastW", "bursty", "bursty"])
+    s: List[str] = []
+    while len(s) < total:
+        if flavour == "even":
+            s.append(rng.choice("RW"))
+        elif flavour == "slowW":
+            s.append("R" if rng.random() < 0.85 else "W")
+        elif flavour == "fastW":
+            s.append("W" if rng.random() < 0.7 else "R")
+        else:
+            s.extend(rng.choice("RW") * rng.randint(1, 14))
+    case["sched"] = "".join(s[:total])
+    r = rng.random()
+    case["faults"] = [] if r < 0.7 else sorted({rng.randrange(60) for _ in range(1 if r < 0.92 else 2)})
+    return case
+
+
 def fmt_cases(rng, deep: bool) -> Iterable[Tuple[str, List[int], List[int], int]]:
     """(format, message types, sizes of the write() batches, size of the finalize batch)"""
     fmts = ["raw", "json", "quicklogger"]
@@ -187,6 +290,12 @@ def _work(chunk: List[Tuple[str, str, Any]]) -> List[Tuple[str, str, Any, List[s
             out.append((cid, kind, case, D.sched_block(cid, case, obs),
                         {"status": obs["status"], "warn": obs["warn"], "wexc": obs["wexc"], "rexc": obs["rexc"],
                          "trace": obs["trace"], "files": obs["files"]}))
+        elif kind == "G":
+            obs = G.run_fine_case(case)
+            out.append((cid, kind, case, G.fine_block(cid, case, obs),
+                        {"status": obs["status"], "warn": obs["warn"], "wexc": obs["wexc"], "rexc": obs["rexc"],
+                         "trace": obs["trace"], "files": obs["files"], "fired": obs["fired"], "wdead": obs["wdead"],
+                         "audit": obs["audit"]}))
         else:
             o = D.run_fmt_case(*case)
             out.append((cid, kind, case, D.fmt_block(cid, o), {"exc": o["exc"], "n": len(o["msgs"])}))
@@ -199,6 +308,10 @@ def _bump(d: Dict[str, int], k: str, n: int = 1):
 
 def _account(res: C.Result, cid: str, kind: str, case: Any, blk: List[str], meta: Dict[str, Any], verdict):
     X = res.extra
+    if kind in "SG":
+        for l in blk:
+            if l.startswith("FB "):
+                _bump(X["file_bytes_compared"], case["ds"][int(l.split(" ", 2)[1])]["fmt"])
     if kind == "S":
         key = (tuple(map(str, case["ds"])), tuple(map(tuple, case["ops"])), case["sched"])
         nontrivial = any(t.startswith("W:write") for t in meta["trace"])
@@ -226,6 +339,27 @@ def _account(res: C.Result, cid: str, kind: str, case: Any, blk: List[str], meta
             _bump(X["branches"], "last file empty after sub-division")
         if len(case["ops"]) >= 6:
             res.sample({"case": case, "impl": blk[-(2 + sum(len(f) for f in meta["files"])):-1], "verdicts": verdict})
+    elif kind == "G":
+        key = ("G", tuple(map(str, case["ds"])), tuple(map(tuple, case["ops"])), case["sched"], tuple(case["faults"]))
+        res.note_case(key, any(t.startswith("W:l") for t in meta["trace"]))
+        _bump(X["fine_outcomes"], meta["status"] + (" (failure injected)" if case["faults"] else ""))
+        for t in meta["trace"]:
+            lab = t.replace("0", "#").replace("1", "#").replace("2", "#").replace("3", "#")
+            _bump(X["fine_gate_labels"], lab)
+        if meta["fired"]:
+            _bump(X["fine_failure_hit_in"], "writer thread" if meta["wdead"] else "recording thread (stop)")
+        if meta["warn"]:
+            _bump(X["fine_branches"], "update: writer busy, flush skipped (warning)")
+        if any(t == "R:fin.wait" for t in meta["trace"]):
+            _bump(X["fine_branches"], "stop: waited for the writer")
+        if any(len(fl) > 1 for fl in meta["files"]):
+            _bump(X["fine_branches"], "sub-division produced a second file")
+        tr = meta["trace"]
+        if any(a.startswith("W:") and a[2] in "gls" and b.startswith("R:") and (b[2] in "ls" and b[3:4].isdigit())
+               for a, b in zip(tr, tr[1:])):
+            _bump(X["fine_branches"], "recorder touched a data set between two accesses of the writer's cycle")
+        if case["faults"] and len(res.samples) < 12 and meta["status"] != "done":
+            res.sample({"fine_case": case, "impl": blk[5:7], "verdicts": verdict})
     else:
         fmt, types, sizes, last = case
         res.note_case(("F", fmt, tuple(types), tuple(sizes), last), nontrivial=len(types) >= 2)
@@ -252,21 +386,22 @@ def _feed(res: C.Result, items: List[Tuple[str, str, Any]], pool) -> None:
         res.traces_validated += 1
         _account(res, cid, kind, case, blk, meta, r["props"])
         cc = {"kind": kind, "case": case, "protocol": blk if len("".join(blk)) < 20000 else blk[:6]}
+        if kind == "G":
+            cc["obs"] = {"status": meta["status"], "wdead": meta["wdead"], "fired": meta["fired"]}
         for d in r["corr"]:
-            res.corr_diffs.append({"name": "corr:M10/" + ("handshake" if kind == "S" else "format"),
+            res.corr_diffs.append({"name": "corr:M10/" + {"S": "handshake", "G": "fine-handshake"}.get(kind, "format"),
                                    "diff": d[:600], "case": cc})
         for v in r["props"].get(PROP, []):
             if v.startswith("fail"):
                 cl = v[5:]
                 detail = f"{cl}: " + (f"impl status {meta['status']} wexc={meta['wexc']} rexc={meta['rexc']} "
-                                      f"files={meta['files']}" if kind == "S" else f"formatter case {case}")
-                res.failures.append(C.Failure(clause=cl, case=cc, detail=detail,
-                                              finding=C.match_finding(PROP, cl, cc, MATCHERS)))
+                                      f"files={meta['files']}" if kind in "SG" else f"formatter case {case}")
+                res.failures.append(C.Failure(clause=cl, case=cc, detail=detail, finding=_finding(cl, cc)))
 
 
 def _init_extra(res: C.Result):
     for k in ("outcomes", "op_kinds", "formats", "data_sets_per_case", "gate_labels", "branches", "fmt_cases",
-              "fmt_paths"):
+              "fmt_paths", "file_bytes_compared", "fine_outcomes", "fine_gate_labels", "fine_branches", "fine_failure_hit_in"):
         res.extra.setdefault(k, {})
 
 
@@ -306,13 +441,30 @@ def run(res: C.Result, deep: bool):
         items.append((f"l{n}", "S", random_case(rng, long=True))); n += 1
     for fc in fmt_cases(rng, deep):
         items.append((f"f{n}", "F", fc)); n += 1
+    n_fine0 = n
+    for case in fine_directed():
+        items.append((f"gd{n}", "G", case)); n += 1
+    for case in fine_exhaustive(deep, rng):
+        items.append((f"ge{n}", "G", case)); n += 1
+    for case in fine_fault_sweep(deep):
+        items.append((f"gf{n}", "G", case)); n += 1
+    nfr = (5000, 1000) if deep else (700, 150)
+    for _ in range(nfr[0]):
+        items.append((f"gr{n}", "G", fine_random(rng, long=False))); n += 1
+    for _ in range(nfr[1]):
+        items.append((f"gl{n}", "G", fine_random(rng, long=True))); n += 1
+    res.extra["fine_cases"] = n - n_fine0
     res.rule = ("handshake: every schedule of <= %d alternating runs (run length 1..%d for R, one writer cycle for W, "
                 "both starting threads) over %d small programs [%d cases]; directed boundary programs x 9 schedule "
                 "shapes; %d seeded random short and %d long (20-50 operations, 1-3 data sets, all four formatters, four "
                 "scheduler flavours) runs; each schedule is completed by a round-robin tail.  formats: every partition "
                 "of every type sequence of length <= %d into <= 3 write() batches + finalize batch for raw/json/"
                 "quicklogger, plus seeded long partitions.  A handshake case is non-trivial when the writer wrote at "
-                "least once; distinct by (data sets, operations, schedule)."
+                "least once; distinct by (data sets, operations, schedule).  fine granularity (every access to a shared "
+                "object is a scheduling point): the directed programs x 11 schedule shapes; for the 5 small programs every "
+                "schedule R^a W^b R^c W^d with all a, all b and (thorough) a spread of c, d resp. (quick) c = 0 and, for every other (a, b), one seeded (c, d); a sweep that makes each of the first "
+                "26/40 file-system operations fail, over 7 programs x 4/6 schedule shapes; seeded random runs with burst "
+                "schedules and 0-2 injected failures."
                 % (6 if deep else 5, 6, len(SMALL_PROGRAMS), len(ex), nrand[0], nrand[1],
                    4 if deep else 3))
 
@@ -322,14 +474,15 @@ def run(res: C.Result, deep: bool):
     _with_pool(go)
     seen = set(res.extra["gate_labels"])
     res.extra["gate_labels_never_seen"] = [l for l in ALL_LABELS if l not in seen]
-    res.assumptions = ["threads are interleaved only at gated operations (see TRUSTED)",
+    res.assumptions = ["every access to an object both threads can reach is a scheduling point; code between two such "
+                       "accesses touches thread-local data only (audited per run, see TRUSTED)",
                        "one recording session per collection: start(); operations; stop()"]
 
 
 def search(res: C.Result):
     """rule 2: model and code disagree but no failing input yet: explore schedules around the diverging cases"""
     _init_extra(res)
-    seeds = [d["case"]["case"] for d in res.corr_diffs if d["case"]["kind"] == "S"][:12]
+    seeds = [d["case"]["case"] for d in res.corr_diffs if d["case"]["kind"] in "SG"][:12]
     items: List[Tuple[str, str, Any]] = []
     n = 0
     rng = C.rng_for(res.seed, "C17search")
@@ -346,6 +499,10 @@ def search(res: C.Result):
                 items.append((f"s{n}", "S", dict(base, sched=s))); n += 1
     for _ in range(3000):
         items.append((f"s{n}", "S", random_case(rng, long=rng.random() < 0.3))); n += 1
+    for case in fine_exhaustive(False, rng):
+        items.append((f"s{n}", "G", case)); n += 1
+    for _ in range(3000):
+        items.append((f"s{n}", "G", fine_random(rng, long=rng.random() < 0.3))); n += 1
 
     def go(pool):
         for i in range(0, len(items), 8000):
@@ -364,6 +521,12 @@ def replay(body: Dict[str, Any]) -> int:
         case = cc["case"]
         obs = D.run_sched_case(case)
         blk = D.sched_block("replay", case, obs)
+        if obs.get("wexc") or obs.get("rexc"):
+            print(f"# writer exception: {obs.get('wexc')}   recorder exception: {obs.get('rexc')}")
+    elif cc["kind"] == "G":
+        case = cc["case"]
+        obs = G.run_fine_case(case)
+        blk = G.fine_block("replay", case, obs)
         if obs.get("wexc") or obs.get("rexc"):
             print(f"# writer exception: {obs.get('wexc')}   recorder exception: {obs.get('rexc')}")
     else:
